@@ -7,7 +7,7 @@ the loader of the pinned tree (kept for the witnesses).  All statements
 quantify over every loader state (hence every old file), every list of data
 points a session writes, every crash point.
 -/
-import RB.Proofs.Lemmas.Loader
+import RB.Proofs.Lemmas.LoaderRender
 
 namespace RB.Loader
 
@@ -15,43 +15,27 @@ deriving instance DecidableEq for Except
 
 /-! ## What a torn line can be -/
 
-/-- what the torn tail of an interrupted write (with the next session's `#!…` line appended
-directly behind it) can classify as: a damaged data line, a damaged metadata record, or a comment -/
-def Torn (r : Rec) : Prop :=
-  r = .dataErr .value ∨ r = .dataErr .index ∨ r = .metaErr .value ∨ r = .metaErr .index
-    ∨ r = .comment ∨ r = .session
+/- `Torn r` (defined in `Lemmas/LoaderText.lean`): what the torn tail of an interrupted write, with the
+next session's `#!…` line appended directly behind it, can classify as — a damaged data line
+(`dataErr`), a damaged metadata record (`metaErr`), a comment, or the session line itself. -/
 
 /-- bridge lemma (text level), "a torn line is garbage": a data line whose last tab-separated
 field contains a character that is not a digit never parses as a measurement — in particular
 no strict prefix of a measurement line with the next session's `#!command line` behind it. -/
-theorem c09_torn_is_garbage (pl : Payloads) (hdr pre cmd : Text) (t : Bool)
+theorem c09_torn_is_garbage (pl : Payloads) (hp : pl.profile = none) (hdr pre cmd : Text) (t : Bool)
     (hcmd : '\t' ∉ cmd) (m : Meas) :
-    classify pl hdr ⟨pre ++ '#' :: '!' :: cmd, t⟩ ≠ .meas m := by
-  intro h
-  unfold classify at h
-  simp only at h
-  split at h
-  · -- a comment line is never a measurement
-    unfold classifyComment at h
-    repeat' split at h
-    all_goals cases h
-  · split at h
-    · cases h
-    · obtain ⟨last, hl, hn⟩ := classifyData_meas_last h
-      have hb : '\t' ∉ ('#' :: '!' :: cmd) := by
-        intro hmem
-        rcases List.mem_cons.mp hmem with e | hmem
-        · cases e
-        rcases List.mem_cons.mp hmem with e | hmem
-        · cases e
-        exact hcmd hmem
-      obtain ⟨x, hx⟩ := splitOn_getLast_append '\t' ('#' :: '!' :: cmd) hb pre
-      rw [hx] at hl
-      cases hl
-      have := pyNat?_none_of_nondigit (x ++ '#' :: '!' :: cmd) '#' (by simp) (by decide)
-      rw [this] at hn; cases hn
+    classify pl hdr ⟨pre ++ '#' :: '!' :: cmd, t⟩ ≠ .meas m :=
+  classify_glued_not_meas pl hp hdr pre cmd t hcmd m
 
-example : classify ⟨[], []⟩ "h".toList ⟨"1\t1\t2.5".toList ++ '#' :: '!' :: "rebench -D c.conf".toList, true⟩
+/-- the same for a profile data file, where the last column is free text and the run id is the
+column before it: what rejects the glued line is the JSON check of the last column (repaired
+loader; the pinned loader does not check and can read such a line as a line of another run) -/
+theorem c09_torn_is_garbage_profile (pl : Payloads) (hpl : PlOk pl) (ok : Text → Bool)
+    (hp : pl.profile = some ok) (pre cmd : Text) (hc : cmdOk cmd = true) :
+    classifyProfile ok (splitOn '\t' (pre ++ sessLine cmd)) = .dataErr .value :=
+  classifyProfile_glued pl hpl ok hp pre cmd hc
+
+example : classify Payloads.none "h".toList ⟨"1\t1\t2.5".toList ++ '#' :: '!' :: "rebench -D c.conf".toList, true⟩
     = .dataErr .value := by decide
 
 /-- bridge lemma (text level): rendering fields without tabs and splitting them again is the identity -/
@@ -67,12 +51,10 @@ theorem c09_rendered_line_parses (invT itT val unit crit : Text) (mid : List Tex
     (h1 : pyNat? invT = some inv) (h2 : pyNat? itT = some it) (h3 : pyFloatOk val = true)
     (h4 : pyNat? idxT = some idx) :
     classifyData (splitOn '\t' (joinWith '\t' ([invT, itT, val, unit, crit] ++ mid ++ [idxT])))
-      = .meas ⟨inv, it, val, crit, crit == totalName, idx⟩ := by
-  rw [splitOn_joinWith '\t' _ (by simp) hnotab]
-  unfold classifyData lastAfter5
-  simp [h1, h2, h3, h4]
+      = .meas ⟨inv, it, val, crit, crit == totalName, idx⟩ :=
+  rendered_line_parses invT itT val unit crit mid idxT inv it idx hnotab h1 h2 h3 h4
 
-example : classify ⟨[], []⟩ "h".toList ⟨"2\t1\t100017.000000\tms\ttotal\tB\tE\tS\t\t1\t\t\t\t\t0".toList, true⟩
+example : classify Payloads.none "h".toList ⟨"2\t1\t100017.000000\tms\ttotal\tB\tE\tS\t\t1\t\t\t\t\t0".toList, true⟩
     = .meas ⟨2, 1, "100017.000000".toList, totalName, true, 0⟩ := by decide
 
 /-! ## The repaired loader -/
@@ -102,9 +84,8 @@ example : ∃ st', loadFrom Variant.repaired LState.init
 
 /-- a torn tail is tolerated by the repaired loader: it hands over nothing and stops nothing -/
 theorem c09_torn_tolerated (st : LState) (r : Rec) (h : Torn r) :
-    ∃ st', step Variant.repaired st r = .ok st' ∧ st'.loaded = st.loaded ∧ st'.tables = st.tables := by
-  rcases h with h | h | h | h | h | h <;> subst h <;>
-    simp [step, tolerate, atComment, Variant.repaired, LState.tables]
+    ∃ st', step Variant.repaired st r = .ok st' ∧ st'.loaded = st.loaded ∧ st'.tables = st.tables :=
+  torn_tolerated st r h
 
 /-- `load_after_any_prefix`, first part (loadable): an old file that loads, any session on top of
 it cut after any number `k` of records with any torn tail behind the cut, then two further
@@ -200,6 +181,219 @@ theorem c09_crash_counts_complete_only (st : LState) (glued empty : Bool) (ds1 :
 example : (emitDP (ensureAll LState.init.tables []) ⟨0, 0, 1, 1, [("mem".toList, "7".toList)], "3".toList⟩).length = 4 := by
   decide
 
+/-! ## The same on bytes -/
+
+/-- `load_after_any_prefix` on byte prefixes of the rendered text.  For every old file text that
+loads (whatever it is: complete lines and possibly an unterminated rest of an earlier crash),
+every session `s1` rendered behind it and every number `k` of bytes of it that reached the file:
+
+* the file `oldText ++ (text of s1).take k` loads without error, and exactly the first `n` data
+  points of `s1` are handed over, each once and made of its own lines, where `n` is the number
+  of `total` lines lying completely inside the `k` bytes (a data point's last line is its `total`
+  line, so these are the completely written data points);
+* whatever sessions `ss` are then rendered behind the cut (directly behind the torn bytes, from
+  the tables the loader reports), the file loads without error and hands over, in addition,
+  exactly the data points of `ss`.
+
+Text-level side conditions, all explicit: `Sess.Ok` (every line the session writes is a line
+without newline / carriage return that classifies as the record meant, the records are the
+writer model's; the command line is one line, without tab, not ending in `}`), `noCR oldText`
+(the model does not split at carriage returns), `'#' ∉ hdr`, `PlOk` (accepted JSON payloads end in
+`}`).  The concrete renderer `mkSess` satisfies `Sess.Ok` (`mkSess_ok`). -/
+theorem c09_load_after_any_byte_prefix
+    (pl : Payloads) (hdr : Text) (hh : '#' ∉ hdr) (hpl : PlOk pl)
+    (oldText : Text) (_hcr : noCR oldText = true) (st : LState)
+    (hold : load Variant.repaired (records Variant.repaired pl hdr oldText) = .ok st)
+    (s1 : Sess) (hs1 : s1.Ok pl hdr) (k : Nat) :
+    ∃ st1 n,
+      load Variant.repaired (records Variant.repaired pl hdr (oldText ++ (sessText st.tables s1).take k)) = .ok st1
+      ∧ n = countTotals (records Variant.repaired pl hdr ((sessText st.tables s1).take k))
+      ∧ st1.loaded = st.loaded ++ (s1.ds.take n).map WDP.toDP
+      ∧ ∀ (ss : List Sess), (∀ s ∈ ss, s.Ok pl hdr) →
+          ∃ st3, load Variant.repaired (records Variant.repaired pl hdr
+                    (oldText ++ (sessText st.tables s1).take k ++ sessionsText st1.tables ss)) = .ok st3
+            ∧ st3.loaded = st1.loaded ++ (ss.flatMap (·.ds)).map WDP.toDP := by
+  obtain ⟨oldLines, p0, rfl, holdl, hp0⟩ := exists_lines oldText
+  -- the old file: its complete lines; the unterminated rest `p0` is not seen
+  have hrold : records Variant.repaired pl hdr (renderLines oldLines ++ p0)
+      = oldLines.map (fun l => classify pl hdr ⟨l, true⟩) := by
+    rw [records_renderLines_append _ _ _ _ _ holdl, records_partial _ _ _ hp0]; simp
+  rw [hrold] at hold
+  unfold load at hold
+  -- the interrupted session's lines
+  have hL : ∀ l ∈ sessLine s1.cmd :: (s1.body st.tables).map RLine.text, '\n' ∉ l := by
+    intro l hl
+    rcases List.mem_cons.mp hl with rfl | hl
+    · simpa using sessLine_nonl (q := []) (by simp) hs1.1
+    · exact body_nonl hs1 st.tables l hl
+  obtain ⟨j, p, htake, hp⟩ := take_renderLines _ hL k
+  have htake' : (sessText st.tables s1).take k
+      = renderLines ((sessLine s1.cmd :: (s1.body st.tables).map RLine.text).take j) ++ p := htake
+  rw [htake']
+  cases j with
+  | zero =>
+    -- the cut is inside the `#!` line: nothing of the session is seen
+    have hq : '\n' ∉ p0 ++ p := by
+      intro hm; rcases List.mem_append.mp hm with h | h
+      · exact hp0 h
+      · exact hp h
+    simp only [List.take_zero, renderLines_nil, List.nil_append]
+    refine ⟨st, 0, ?_, ?_, by simp, ?_⟩
+    · rw [List.append_assoc, records_renderLines_append _ _ _ _ _ holdl, records_partial _ _ _ hq]
+      simpa [load] using hold
+    · rw [records_partial _ _ _ hp]; rfl
+    · intro ss hss
+      obtain ⟨st3, h3, hl3⟩ := load_recsOfSessions pl hdr hh hpl ss (p0 ++ p) st hss
+      refine ⟨st3, ?_, hl3⟩
+      rw [List.append_assoc, List.append_assoc, ← List.append_assoc p0,
+        records_renderLines_append _ _ _ _ _ holdl, records_sessionsText pl hdr ss _ _ hq hss]
+      unfold load
+      rw [loadFrom_append_ok hold]
+      exact h3
+  | succ j' =>
+    -- the `#!` line is complete (glued to `p0` if the old file ended without newline)
+    simp only [List.take_succ_cons]
+    let W := blockRecs true s1.empty ++ emitAll st.tables s1.ds
+    have hW : (s1.body st.tables).map RLine.cls = W := (hs1.2.2 st.tables).2
+    have hcl : (((s1.body st.tables).map RLine.text).take j').map (fun l => classify pl hdr ⟨l, true⟩)
+        = W.take j' := by
+      rw [← List.map_take, ← hW, ← body_classes hs1 st.tables, List.map_take, List.map_take]
+    have hnl : ∀ l ∈ ((s1.body st.tables).map RLine.text).take j', '\n' ∉ l :=
+      fun l hl => body_nonl hs1 st.tables l (List.mem_of_mem_take hl)
+    -- loading: junction, then a prefix of the writer's records
+    obtain ⟨st0, h0, hl0, ht0⟩ := torn_tolerated st _ (junction_torn pl hdr hh hpl p0 s1.cmd hs1.1)
+    have hc : Clean (atComment Variant.repaired st0).cur := by
+      simp [atComment, Variant.repaired]; exact clean_none
+    obtain ⟨stF, hF, _, hlF, _⟩ := load_emitAll Variant.repaired s1.ds (atComment Variant.repaired st0) hc
+    rw [atComment_tables, ht0] at hF
+    rw [atComment_loaded] at hlF
+    have hWfull : loadFrom Variant.repaired st0 W = .ok stF := by
+      show loadFrom Variant.repaired st0 (blockRecs true s1.empty ++ emitAll st.tables s1.ds) = .ok stF
+      rw [loadFrom_append_ok (load_block _ st0 true s1.empty)]; exact hF
+    rw [← List.take_append_drop j' W] at hWfull
+    obtain ⟨stA, hA, _⟩ := loadFrom_prefix_ok hWfull
+    have hlA : stA.loaded = st0.loaded ++ (s1.ds.map WDP.toDP).take (countTotals (W.take j')) :=
+      prefix_loaded hA hWfull hlF
+    have hrec1 : ∀ R : Text, records Variant.repaired pl hdr
+          (renderLines oldLines ++ p0 ++ (renderLines (sessLine s1.cmd :: ((s1.body st.tables).map RLine.text).take j') ++ R))
+        = oldLines.map (fun l => classify pl hdr ⟨l, true⟩)
+          ++ (classify pl hdr ⟨p0 ++ sessLine s1.cmd, true⟩ :: (W.take j' ++ records Variant.repaired pl hdr R)) := by
+      intro R
+      have e : renderLines oldLines ++ p0 ++ (renderLines (sessLine s1.cmd :: ((s1.body st.tables).map RLine.text).take j') ++ R)
+          = renderLines oldLines ++ ((p0 ++ sessLine s1.cmd) ++ '\n' ::
+              (renderLines (((s1.body st.tables).map RLine.text).take j') ++ R)) := by
+        simp [renderLines_cons, List.append_assoc]
+      rw [e, records_renderLines_append _ _ _ _ _ holdl,
+        records_cons_line _ _ _ _ _ (sessLine_nonl hp0 hs1.1),
+        records_renderLines_append _ _ _ _ _ hnl, hcl]
+    have hloadA : ∀ rest : List Rec, loadFrom Variant.repaired LState.init
+          (oldLines.map (fun l => classify pl hdr ⟨l, true⟩)
+            ++ (classify pl hdr ⟨p0 ++ sessLine s1.cmd, true⟩ :: (W.take j' ++ rest)))
+        = loadFrom Variant.repaired stA rest := by
+      intro rest
+      rw [loadFrom_append_ok hold]
+      simp only [loadFrom, h0]
+      rw [loadFrom_append_ok hA]
+    refine ⟨stA, countTotals (W.take j'), ?_, ?_, ?_, ?_⟩
+    · unfold load
+      rw [hrec1 p, records_partial _ _ _ hp, hloadA []]; rfl
+    · have e2 : renderLines (sessLine s1.cmd :: ((s1.body st.tables).map RLine.text).take j') ++ p
+          = sessLine s1.cmd ++ '\n' :: (renderLines (((s1.body st.tables).map RLine.text).take j') ++ p) := by
+        simp [renderLines_cons, List.append_assoc]
+      have hsl : '\n' ∉ sessLine s1.cmd := by simpa using sessLine_nonl (q := []) (by simp) hs1.1
+      rw [e2, records_cons_line _ _ _ _ _ hsl, records_renderLines_append _ _ _ _ _ hnl, hcl,
+        records_partial _ _ _ hp, classify_sessLine, List.append_nil,
+        countTotals_of_torn _ (by right; right; right; right; right; rfl)]
+    · rw [hlA, hl0, List.map_take]
+    · intro ss hss
+      obtain ⟨st3, h3, hl3⟩ := load_recsOfSessions pl hdr hh hpl ss p stA hss
+      refine ⟨st3, ?_, hl3⟩
+      unfold load
+      have e3 : renderLines oldLines ++ p0 ++ (renderLines (sessLine s1.cmd :: ((s1.body st.tables).map RLine.text).take j') ++ p)
+            ++ sessionsText stA.tables ss
+          = renderLines oldLines ++ p0 ++ (renderLines (sessLine s1.cmd :: ((s1.body st.tables).map RLine.text).take j')
+              ++ (p ++ sessionsText stA.tables ss)) := by
+        simp [List.append_assoc]
+      rw [e3, hrec1, records_sessionsText pl hdr ss _ _ hp hss, hloadA]
+      exact h3
+
+
+/-- the same for the concrete renderer of the model (`str(n)` numerals, tab-joined columns,
+`# benchmark: id=json` / `# run_id: id=json` records): the side conditions left are decidable
+predicates on the rendered fields (`rendOk`, `dpOk`, `cmdOk`, `noCR`) and the decoders accepting
+the renderer's payloads (`RendFor`, `PlOk`, and `Mode`: benchmark data file, or profile data file
+whose JSON columns the decoder accepts). -/
+theorem c09_load_after_any_byte_prefix_rendered
+    (pl : Payloads) (R : Rend) (hR : rendOk R = true) (hpl : PlOk pl) (hfor : RendFor pl R)
+    (oldText : Text) (hcr : noCR oldText = true) (st : LState)
+    (hold : load Variant.repaired (records Variant.repaired pl R.hdr oldText) = .ok st)
+    (cmd1 : Text) (empty1 : Bool) (ds1 : List WDP)
+    (hc1 : cmdOk cmd1 = true ∧ noCR cmd1 = true) (hm1 : Mode pl R ds1) (hd1 : ∀ d ∈ ds1, dpOk R d = true) (k : Nat) :
+    ∃ st1 n,
+      load Variant.repaired (records Variant.repaired pl R.hdr
+          (oldText ++ (sessText st.tables (mkSess R cmd1 empty1 ds1)).take k)) = .ok st1
+      ∧ n = countTotals (records Variant.repaired pl R.hdr ((sessText st.tables (mkSess R cmd1 empty1 ds1)).take k))
+      ∧ st1.loaded = st.loaded ++ (ds1.take n).map WDP.toDP
+      ∧ ∀ (later : List (Text × Bool × List WDP)),
+          (∀ s ∈ later, cmdOk s.1 = true ∧ noCR s.1 = true ∧ Mode pl R s.2.2 ∧ ∀ d ∈ s.2.2, dpOk R d = true) →
+          ∃ st3, load Variant.repaired (records Variant.repaired pl R.hdr
+                    (oldText ++ (sessText st.tables (mkSess R cmd1 empty1 ds1)).take k
+                      ++ sessionsText st1.tables (later.map (fun s => mkSess R s.1 s.2.1 s.2.2)))) = .ok st3
+            ∧ st3.loaded = st1.loaded ++ (later.flatMap (·.2.2)).map WDP.toDP := by
+  have hh : '#' ∉ R.hdr := (rendOk_spec hR).2.2.2.2.2
+  have hs1 := mkSess_ok pl R hR hfor cmd1 hc1.1 hc1.2 empty1 ds1 hm1 hd1
+  obtain ⟨st1, n, h1, hn, hl1, hrest⟩ :=
+    c09_load_after_any_byte_prefix pl R.hdr hh hpl oldText hcr st hold (mkSess R cmd1 empty1 ds1) hs1 k
+  refine ⟨st1, n, h1, hn, hl1, fun later hlater => ?_⟩
+  obtain ⟨st3, h3, hl3⟩ := hrest (later.map (fun s => mkSess R s.1 s.2.1 s.2.2)) (by
+    intro s hs
+    obtain ⟨x, hx, rfl⟩ := List.mem_map.mp hs
+    obtain ⟨c1, c2, c3, c4⟩ := hlater x hx
+    exact mkSess_ok pl R hR hfor x.1 c1 c2 x.2.1 x.2.2 c3 c4)
+  refine ⟨st3, h3, ?_⟩
+  rw [hl3]
+  congr 2
+  rw [List.flatMap_map]
+  rfl
+
+/-- non-vacuity of the byte-prefix theorem: a concrete renderer, decoders, command lines and data
+points (two criteria, two iterations) satisfy every hypothesis, from the empty file -/
+theorem c09_byte_prefix_hypotheses_hold :
+    rendOk exRend = true ∧ PlOk exPl ∧ RendFor exPl exRend ∧ noCR [] = true
+    ∧ load Variant.repaired (records Variant.repaired exPl exRend.hdr []) = .ok LState.init
+    ∧ (cmdOk "rebench -D t.conf".toList = true ∧ noCR "rebench -D t.conf".toList = true)
+    ∧ Mode exPl exRend [(⟨0, 0, 1, 1, [("mem".toList, "7.000000".toList)], "3.000000".toList⟩ : WDP),
+              ⟨0, 0, 1, 2, [], "4.000000".toList⟩]
+    ∧ (∀ d ∈ [(⟨0, 0, 1, 1, [("mem".toList, "7.000000".toList)], "3.000000".toList⟩ : WDP),
+              ⟨0, 0, 1, 2, [], "4.000000".toList⟩], dpOk exRend d = true) :=
+  ⟨exRend_ok, exPl_ok, exRend_for, rfl, rfl, by decide, Or.inl ⟨rfl, rfl⟩, by decide⟩
+
+/-- the same for a profile data file: the decoder accepts JSON columns that end in `]` -/
+theorem c09_byte_prefix_hypotheses_hold_profile :
+    let plP : Payloads := { exPl with profile := some (fun js => js.getLast? == some ']') }
+    let RP : Rend := { exRend with profile := true }
+    rendOk RP = true ∧ PlOk plP ∧ RendFor plP RP
+    ∧ load Variant.repaired (records Variant.repaired plP RP.hdr []) = .ok LState.init
+    ∧ Mode plP RP [(⟨0, 0, 1, 1, [], "[1]".toList⟩ : WDP), ⟨0, 0, 2, 1, [], "[2]".toList⟩]
+    ∧ (∀ d ∈ [(⟨0, 0, 1, 1, [], "[1]".toList⟩ : WDP), ⟨0, 0, 2, 1, [], "[2]".toList⟩], dpOk RP d = true) := by
+  refine ⟨by decide, ⟨exPl_ok.1, exPl_ok.2.1, ?_⟩, exRend_for, rfl, ?_, by decide⟩
+  · intro ok js h hok
+    simp only [Option.some.injEq] at h
+    subst h
+    left; simpa using hok
+  · exact Or.inr ⟨_, rfl, rfl, by decide⟩
+
+/-- and one evaluated instance (202 bytes of text): a cut inside the first `total` line counts
+nothing, a cut inside the last line counts the first data point, the whole text both -/
+example :
+    let s := mkSess exRend "rebench -D t.conf".toList true
+      [⟨0, 0, 1, 1, [("mem".toList, "7.000000".toList)], "3.000000".toList⟩, ⟨0, 0, 1, 2, [], "4.000000".toList⟩]
+    (sessText LState.init.tables s).length = 202
+    ∧ countTotals (records Variant.repaired exPl exRend.hdr ((sessText LState.init.tables s).take 150)) = 0
+    ∧ countTotals (records Variant.repaired exPl exRend.hdr ((sessText LState.init.tables s).take 170)) = 1
+    ∧ countTotals (records Variant.repaired exPl exRend.hdr ((sessText LState.init.tables s).take 202)) = 2 := by
+  decide +kernel
+
 /-! ## The pinned loader: witnesses -/
 
 /-- witness 1 (pinned tree): a torn `# run_id:` record — the next load ends in a traceback -/
@@ -246,12 +440,25 @@ private def torn9 : Text := "1\t1\t1.000000\tms\ttotal\tB\tE\tS\t\t1".toList
 `cores` column (`1`) and not followed by anything reads as a line of run 1; with one run in the
 file the load ends with "Possibly corrupted data file. run_id 1 not found" (exit 3), for good -/
 theorem c09_unterminated_numeric_field :
-    load Variant.pinned (Rec.bench 0 0 :: Rec.run 0 0 0 :: records Variant.pinned ⟨[], []⟩ hdr0 torn9)
+    load Variant.pinned (Rec.bench 0 0 :: Rec.run 0 0 0 :: records Variant.pinned Payloads.none hdr0 torn9)
       = .error .uiError := by decide
 
 theorem c09_unterminated_repaired :
-    ∃ st, load Variant.repaired (Rec.bench 0 0 :: Rec.run 0 0 0 :: records Variant.repaired ⟨[], []⟩ hdr0 torn9)
+    ∃ st, load Variant.repaired (Rec.bench 0 0 :: Rec.run 0 0 0 :: records Variant.repaired Payloads.none hdr0 torn9)
       = .ok st := ⟨_, rfl⟩
+
+/-- witness 4 (profile data files, loader without the JSON check): a profile line of run 0 cut
+behind the tab after its `cores` column (`1`), the next session's `#!` line glued behind it: the
+remainder lands in the last column, the run id is read from the column before it — the line
+counts for run 1.  The repaired loader checks the JSON column first and drops the line. -/
+theorem c09_profile_torn_line_misread :
+    classify { Payloads.none with profile := some (fun _ => true) } hdr0
+        ⟨"2\t1\tB\tE\tS\t\t1\t".toList ++ sessLine "rebench -D c.conf".toList, true⟩
+      = .meas ⟨2, 1, sessLine "rebench -D c.conf".toList, totalName, true, 1⟩
+    ∧ classify { Payloads.none with profile := some (fun js => js.getLast? == some ']') } hdr0
+        ⟨"2\t1\tB\tE\tS\t\t1\t".toList ++ sessLine "rebench -D c.conf".toList, true⟩
+      = .dataErr .value := by
+  constructor <;> decide
 
 /-- the full statement is false of the pinned loader -/
 theorem c09_load_after_any_prefix_pinned_full_fails :
@@ -298,6 +505,27 @@ theorem c09_resume_complete_full_fails :
   obtain ⟨st, st', hst, _, hres, h1, _⟩ := c09_invocation_counted_early
   have := h st [⟨0, 0, 2, 2⟩] val0 st' hres ⟨0, 0, 2, 2⟩ (by simp) 1 (by decide) (by decide)
   rw [h1] at this
+  cases this
+
+/-- why no loader (and no executor) can repair this on the present file format: the number of
+data points of an invocation is whatever the harness prints, and the file has no end-of-invocation
+record.  History A: invocation 1 printed ONE data point and the session ended normally.  History B:
+invocation 1 printed TWO data points and the session was killed after the first flush.  Both leave
+exactly the same records, so every function of the file gives both the same plan — but A needs
+"continue with invocation 2" and B needs "invocation 1 again". -/
+theorem c09_complete_and_torn_indistinguishable :
+    let a : List WDP := [⟨0, 0, 1, 1, [], "2".toList⟩]
+    let b : List WDP := [⟨0, 0, 1, 1, [], "2".toList⟩, ⟨0, 0, 1, 2, [], "3".toList⟩]
+    sessionRecs false true LState.init.tables a = (sessionRecs false true LState.init.tables b).take 8
+    ∧ ∀ plan : List Rec → List Nat,
+        ¬ (plan (sessionRecs false true LState.init.tables a) = [2]
+           ∧ plan ((sessionRecs false true LState.init.tables b).take 8) = [1, 2]) := by
+  refine ⟨by decide, fun plan h => ?_⟩
+  have e : sessionRecs false true LState.init.tables [⟨0, 0, 1, 1, [], "2".toList⟩]
+      = (sessionRecs false true LState.init.tables
+          [⟨0, 0, 1, 1, [], "2".toList⟩, ⟨0, 0, 1, 2, [], "3".toList⟩]).take 8 := by decide
+  rw [e] at h
+  have := h.1.symm.trans h.2
   cases this
 
 /-- `resume_complete`, proved part: if every invocation counted so far is complete (for every run of
